@@ -39,9 +39,8 @@ def c07_chain(report, cfg, arm, nblocks):
             bv.reset()
             it = Interp(f, MODELS, hooks=arm_hooks(arm))
             bb = 8 * cols
-            new = find(f, r"^groestl_aesni::%s::new$" % cname)
-            inp = find(f, r"^groestl_aesni::%s::input$" % cname)
-            fin = find(f, r"^groestl_aesni::%s::finalize_dirty$" % cname)
+            api = compressor_api(f, cname)
+            new, inp, fin = api["new"], api["input"], api["finalize"]
             h = bv.inp("h", 8 * bb)
             hwords = Agg(h[64 * i:64 * i + 64] for i in range(words))
             comp = it.call_instance(new, [hwords])
@@ -74,7 +73,37 @@ def c07_chain(report, cfg, arm, nblocks):
         engine_guard(go, report, "R7.3", ikey)
 
 
-def opaque_compressor_hooks(cname, words):
+def compressor_api(f, cname):
+    """The three operations of a compressor type, found by SIGNATURE among the inherent functions of the crate
+    (their private names are not part of any property): new: fn(words) -> C, absorb: fn(&mut C, &Block | &[Block]),
+    output: fn(&mut C | &C) -> bytes.  -> {"new": key, "input": key, "finalize": key}"""
+    ct = "groestl_aesni::%s" % cname
+    out = {}
+    for k, inst in f.instances.items():
+        b = inst.get("body")
+        if not b or f.defs[inst["def"]]["krate"] != "groestl_aesni":
+            continue
+        if not inst["def"].startswith(ct + "::") or "{" in inst["def"]:
+            continue
+        n = b["arg_count"]
+        loc = b["locals"]
+        ret = loc[0]
+        if n == 1 and ret == ct and loc[1] != ct:
+            out.setdefault("new", []).append(k)
+        elif n == 2 and loc[1] in ("&mut " + ct,) and ret == "()" and loc[2].startswith("&"):
+            out.setdefault("input", []).append(k)
+        elif n == 1 and loc[1] in ("&mut " + ct, "&" + ct) and ret != "()" and ret != ct:
+            out.setdefault("finalize", []).append(k)
+    res = {}
+    for role in ("new", "input", "finalize"):
+        ks = out.get(role, [])
+        if len(ks) != 1:
+            raise Undecided("%s: %d candidate functions for the role '%s' (%s)" % (cname, len(ks), role, ks[:3]))
+        res[role] = ks[0]
+    return res
+
+
+def opaque_compressor_hooks(cname, words, f=None):
     """Modular mode for the padding rule: the compressor is a black box with an abstract state."""
     def new(it, key, args, callee):
         rty = it.ins[key]["body"]["locals"][0]
@@ -101,6 +130,9 @@ def opaque_compressor_hooks(cname, words):
         rty = it.ins[key]["body"]["locals"][0]
         s = it.to_bits(it.deref_read(args[0], st), st)
         return it.from_bits(bv.ufn("G_FINAL", (s,), it.ty.size_bits(rty)), rty)
+    if f is not None:
+        api = compressor_api(f, cname)
+        return {"^%s$" % re.escape(api["new"]): new, "^%s$" % re.escape(api["input"]): inp, "^%s$" % re.escape(api["finalize"]): fin}
     return {r"^groestl_aesni::%s::new$" % cname: new, r"^groestl_aesni::%s::input$" % cname: inp,
             r"^groestl_aesni::%s::finalize_dirty$" % cname: fin}
 
@@ -133,7 +165,7 @@ def c07_default(report, cfg):
         def go():
             bv.reset()
             cname = "Compressor512" if cols == 8 else "Compressor1024"
-            it = Interp(f, MODELS, hooks=opaque_compressor_hooks(cname, cols))
+            it = Interp(f, MODELS, hooks=opaque_compressor_hooks(cname, cols, f))
             t = "groestl_aesni::%s" % name
             d = find(f, r"^<groestl_aesni::%s as core::default::Default>::default$" % name)
             v = it.call_instance(d, [])
@@ -170,7 +202,7 @@ def c07_finalize(report, cfg, only=None, positions=None):
 
             def go():
                 bv.reset()
-                it = Interp(f, MODELS, hooks=opaque_compressor_hooks(cname, cols))
+                it = Interp(f, MODELS, hooks=opaque_compressor_hooks(cname, cols, f))
                 ht = "groestl_aesni::%s" % (inner or name)
                 v = it.from_bits(bv.inp("self", it.ty.size_bits(ht)), ht)
                 comp, ct, _ = by_name(it, v, ht, "compressor")
@@ -227,7 +259,7 @@ def c07_update(report, cfg):
 
                 def go():
                     bv.reset()
-                    it = Interp(f, MODELS, hooks=opaque_compressor_hooks(cname, cols))
+                    it = Interp(f, MODELS, hooks=opaque_compressor_hooks(cname, cols, f))
                     v = it.from_bits(bv.inp("self", it.ty.size_bits(ht)), ht)
                     comp, ct, _ = by_name(it, v, ht, "compressor")
                     sbits = bv.inp("state", it.ty.size_bits(ct))
